@@ -45,6 +45,12 @@ for n, d in (('f3_add_u64', 'add(Element&,const Element&,const uint64_t&)'), ('f
              ('f3_fromU64', 'fromU64'), ('f3_toU64', 'toU64'), ('f3_fromS32', 'fromS32')):
     U(n, d, flags=['--unwind', '4', '--unwinding-assertions'], loops='unwind 4 (constant trip count 3)')
 U('f3_mulScalar', 'mulScalar(Element&,Element&,std::string&) [product; the parse is GMP]', group='f3s', replace=R + ['c_fromString_v'])
+# counterexample search in real arithmetic: the same units with addmod/submod defined (not uninterpreted); used only to
+# obtain a replayable input after an obligation of the structural unit failed
+GROUPS['f3x'] = Group('f3x', filt(False), cxx_defines=['VF_GMP_MODEL'], **SRC)
+for u in list(UNITS):
+    if u.group == 'f3':
+        u.cex_unit = Unit(u.name + '__arith', 'f3x', u.enforce, replace=u.replace, flags=u.flags, functions=u.functions, timeout=60)
 # the scalar callees this chain stands on: their contracts are enforced against the real bodies by C01 (mul) / C15 (fromString)
 _g, _u = import_units('C01', lambda n: re.match(r'w_(mul|add|sub)(_oa|_ob|_ab|_oab|_v)?$|w_op_(times|plus|minus)$|w_neg(_oa|_v)?$|lemma_reduce_congruence$', n))
 GROUPS.update(_g); UNITS += _u
